@@ -711,9 +711,11 @@ class Node:
                         if conn.state == PEER_CLOSED:
                             self.close_connection_socket(
                                 conn, DISCONNECT_REASON_CLEAN_DISCONNECT)
-                        elif (len(conn.write_buffer) == 0 and
-                                not conn.has_queued_messages and
+                        elif (not conn.has_queued_messages and
+                                len(conn.write_buffer) == 0 and
                                 conn.state == PEER_CLOSING):
+                            # in this order: a message counts as queued until
+                            # the writer has put it into the buffer
                             self.connection_logger.debug(
                                 f"{conn} in CLOSING state and no more bytes to "
                                 f"send, closing socket")
@@ -852,14 +854,18 @@ class Node:
                         conn.close(signal_node=False)
                         continue
 
+                # queued first, buffer second: a message counts as queued
+                # until the writer has put it into the buffer
+                if (not conn.has_queued_messages and
+                        len(conn.write_buffer) == 0 and
+                        conn.state == PEER_CLOSING):
+                    self.connection_logger.debug(
+                        f"{conn} in CLOSING state nothing to write, "
+                        f"closing socket")
+                    self.close_connection_socket(
+                        conn, DISCONNECT_REASON_CLEAN_DISCONNECT)
+                    continue
                 if len(conn.write_buffer) == 0:
-                    if (conn.state == PEER_CLOSING and
-                            not conn.has_queued_messages):
-                        self.connection_logger.debug(
-                            f"{conn} in CLOSING state nothing to write, "
-                            f"closing socket")
-                        self.close_connection_socket(
-                            conn, DISCONNECT_REASON_CLEAN_DISCONNECT)
                     continue
 
                 try:
@@ -888,8 +894,8 @@ class Node:
                         f"{conn} sent {sent_bytes} bytes, "
                         f"{len(conn.write_buffer)} bytes remain")
 
-                    if (len(conn.write_buffer) == 0 and
-                            not conn.has_queued_messages and
+                    if (not conn.has_queued_messages and
+                            len(conn.write_buffer) == 0 and
                             conn.state == PEER_CLOSING):
                         self.connection_logger.debug(
                             f"{conn} in CLOSING state and no more bytes to "
